@@ -1,5 +1,8 @@
 import CnlProofs.Scaled
 import CnlProofs.Quotient
+import CnlProofs.Overflow
+import CnlProofs.ElasticScaled
+import CnlProofs.ScaledWrapped
 /-!
 # C02 — `/` and `%` on `scaled_integer` obey the integer-division contract
 
@@ -40,9 +43,30 @@ representations (`Scaled.quotient`, radix 2) is proved here.  `D` is the result'
 * `quotient_error_below_one_unit` — the result is the true quotient `l·2^dR / r` truncated toward
   zero (`IsRounded .truncate`), i.e. `|q| ≤ |l·2^dR / r| < |q| + 1`: the error is less than one unit
   of the result's resolution `2^(eL - eR - dR)`.
+
+Wrapped representations (`CnlModel.ScaledWrapped`, harness `C02w`): `/` and `%` reach the representation's own
+operators, so the contract has to survive what those do before the built-in division runs.
+
+* `elastic_div_mod_values` — representation `elastic_integer` (`elastic_scaled_integer`), **all** digit counts,
+  exponents, narrowest widths and the four signedness mixes of dividend and divisor: for in-range operands and a
+  non-zero divisor, whenever the result types exist, `a / b` is a value with exponent `eL - eR`, `digits a` digits and
+  representation `l.tdiv r`; `a % b` a value with exponent `eL`, `min (digits a) (digits b)` digits and representation
+  `l.tmod r`; both lie in the range their types declare and `q·r + m = l`.  (An unsigned dividend with a negative signed
+  divisor, and an unsigned operand whose top storage bit is set, are instances: the elastic policy makes the operand
+  type signed and wide enough for both operands.)
+* `checked_div_mod_values` — representation `overflow_integer<T, tag>` for every tag (native, saturated, throwing,
+  trapping, undefined), every pair of built-in representations (the same signedness under a checked tag) and every
+  exponent/radix: inside `DivGuard` the tagged `/` and `%` return `l.tdiv r` at `eL - eR` and `l.tmod r` at `eL` in
+  `overflow_integer<usualArith L R, tag>` and **do not signal** — in particular `-max / -1` (`checked_minus_max_by_minus_one`);
+  the excluded `lowest / -1` does signal (example).
+* by correspondence only (no theorem): the five-operator expression `(a/b)*b + a%b == a` over the two wrapped
+  representations (`ScaledWrapped.identE`, `identL`: the oracle demands `true` inside the guard) and `cnl::quotient`
+  over them (`ScaledWrapped.quotientE`, `quotientO`: the oracle demands `(l·2^k).tdiv r` at `eL - eR - k`, within the
+  digits of the result type); radix 10 for `/ %` over elastic representations is the same model (the radix is only part
+  of the type).
 -/
 namespace Cnl.C02
-open Cnl Cnl.Spec Cnl.Layered Cnl.ScaledP Cnl.QuotientP
+open Cnl Cnl.Spec Cnl.Layered Cnl.ScaledP Cnl.QuotientP Cnl.ScaledWrapped Cnl.ScaledWrappedP Cnl.Elastic Cnl.ElasticScaled
 
 /-- representation values and exponents of `a / b` and `a % b` -/
 theorem div_mod_values (L R : IntTy) (eL eR : Int) (ρ : Nat) (l r : Int) (g : DivGuard L R l r) :
@@ -195,5 +219,68 @@ example : IsRounded .truncate (-7 * 2^31) 2 (-7516192768) := by decide
 example : Scaled.quotient i32 0 i32 0 (-7) 0 = .ub .divByZero := by decide
 -- outside the guard: a negative dividend meets an unsigned storage type
 example : ¬ QuotGuard i32 u32 u64 (-7) 2 := by decide
+
+/-! ## wrapped representations: elastic_integer and overflow_integer -/
+
+/-- `overflow_integer` representations, any tag: inside the guard `/` and `%` return the truncated quotient and the
+remainder of the representations, with exponents `eL - eR` and `eL`, and raise no overflow signal -/
+theorem checked_div_mod_values (tag : OvTag) (L R : IntTy) (hL : 1 ≤ L.bits) (hR : 1 ≤ R.bits)
+    (hs : tag ≠ .nat → L.signed = R.signed) (eL eR : Int) (ρ : Nat) (l r : Int)
+    (hl : L.InRange l) (hr : R.InRange r) (g : DivGuard L R l r) :
+    Layered.bin .div (scOv L tag eL ρ l) (scOv R tag eR ρ r) = .ok (scOv (usualArith L R) tag (eL - eR) ρ (l.tdiv r))
+    ∧ Layered.bin .mod (scOv L tag eL ρ l) (scOv R tag eR ρ r) = .ok (scOv (usualArith L R) tag eL ρ (l.tmod r)) := by
+  constructor
+  · rw [bin_scOv .div (Or.inl rfl), ovBinOp_div tag hL hR hs hl hr g]; rfl
+  · rw [bin_scOv .mod (Or.inr rfl), ovBinOp_mod tag g]; rfl
+
+
+/-- `-max / -1 = max`: not an overflow under any tag, for every signed type that is its own common type (`int` and
+wider; narrower representations are promoted and cannot reach `-max` of the promoted type) -/
+theorem checked_minus_max_by_minus_one (tag : OvTag) (T : IntTy) (hb : 1 ≤ T.bits) (hu : usualArith T T = T)
+    (hs : T.signed = true) (eL eR : Int) (ρ : Nat) :
+    Layered.bin .div (scOv T tag eL ρ (-T.max)) (scOv T tag eR ρ (-1)) = .ok (scOv T tag (eL - eR) ρ T.max) := by
+  have h0 := Rounding.zero_le_max T
+  have hlm := Overflow.lowest_max T
+  simp only [hs, ite_true] at hlm
+  have hl : T.InRange (-T.max) := ⟨by omega, by omega⟩
+  have hr : T.InRange (-1) := ⟨by omega, by omega⟩
+  have g : DivGuard T T (-T.max) (-1) := by
+    refine ⟨?_, ?_, by decide, ?_⟩
+    · rw [hu]; exact (wrap_eq_self_iff _ hb _).2 hl
+    · rw [hu]; exact (wrap_eq_self_iff _ hb _).2 hr
+    · rw [hu]; intro ⟨_, h2, _⟩; omega
+  have h := (checked_div_mod_values tag T T hb hb (fun _ => rfl) eL eR ρ _ _ hl hr g).1
+  rw [hu] at h
+  rw [h, show (-1 : Int) = -(1 : Int) from rfl, Int.tdiv_neg, Int.tdiv_one, Int.neg_neg]
+
+example : usualArith i32 i32 = i32 ∧ usualArith i64 i64 = i64 := by decide
+example : Layered.bin .div (scOv i32 .trp (-8) 2 (-2147483647)) (scOv i32 .trp (-4) 2 (-1))
+    = .ok (scOv i32 .trp (-4) 2 2147483647) := by decide
+example : Layered.bin .div (scOv i32 .trp (-8) 2 (-2147483648)) (scOv i32 .trp (-4) 2 (-1)) = .trap true := by decide
+example : DivGuard i32 i32 (-2147483647) (-1) := ⟨by decide, by decide, by decide, by decide⟩
+
+/-- `elastic_integer` representations: for all digit counts, exponents, narrowest widths and signedness mixes, in-range
+operands and a non-zero divisor give — whenever the result types exist — the truncated quotient at `eL - eR` and the
+remainder at `eL`, within the declared range of the result types -/
+theorem elastic_div_mod_values (x y : ESNum) (hx : x.InRange) (hy : y.InRange) (h0 : y.value ≠ 0)
+    (hd : ∀ m, ElasticScaled.binOp .div x y ≠ .ill m) (hm : ∀ m, ElasticScaled.binOp .mod x y ≠ .ill m) :
+    ∃ q rm, ElasticScaled.binOp .div x y = .ok q ∧ ElasticScaled.binOp .mod x y = .ok rm ∧
+      q.exp = x.exp - y.exp ∧ rm.exp = x.exp ∧
+      q.value = x.value.tdiv y.value ∧ rm.value = x.value.tmod y.value ∧
+      q.value * y.value + rm.value = x.value ∧
+      q.digits = x.digits ∧ rm.digits = min x.digits y.digits ∧ q.InRange ∧ rm.InRange := by
+  obtain ⟨d, sg, n, hp, h1, he, hs⟩ := ElasticScaled.binOp_mdm_core .div (Or.inr (Or.inl rfl)) x y hx hy (fun _ => h0) hd
+  obtain ⟨d', sg', n', hp', h1', he', hs'⟩ := ElasticScaled.binOp_mdm_core .mod (Or.inr (Or.inr rfl)) x y hx hy (fun _ => h0) hm
+  simp only [AOp.toBin, policy, Option.some.injEq, Prod.mk.injEq] at hp hp'
+  refine ⟨_, _, h1, h1', rfl, rfl, rfl, rfl, ?_, hp.1.symm, hp'.1.symm, he.mono hs, he'.mono hs'⟩
+  exact div_mod_identity_values x.value y.value
+
+-- an unsigned dividend and a negative signed divisor (12 and 10 digits): the operand type is signed
+example : ElasticScaled.binOp .mod ⟨12, u32, -4, 10⟩ ⟨10, i32, -2, -3⟩ = .ok ⟨10, i32, -4, 1⟩ := by decide
+example : ElasticScaled.binOp .div ⟨12, u32, -4, 10⟩ ⟨10, i32, -2, -3⟩ = .ok ⟨12, i32, -2, -3⟩ := by decide
+-- an unsigned operand that fills its 32-bit storage, top bit set, on either side of a signed 8-digit operand
+example : ElasticScaled.binOp .mod ⟨32, u32, -16, 2147483648⟩ ⟨8, i32, -2, 3⟩ = .ok ⟨8, i32, -16, 2⟩ := by decide
+example : ElasticScaled.binOp .div ⟨8, i32, -2, 100⟩ ⟨32, u32, -16, 4294967293⟩ = .ok ⟨8, i32, 14, 0⟩ := by decide
+example : (⟨32, u32, -16, 2147483648⟩ : ESNum).InRange ∧ (⟨8, i32, -2, -3⟩ : ESNum).InRange := by decide
 
 end Cnl.C02
